@@ -453,8 +453,6 @@ func classify(f failure) string {
 			return "tag-context-space"
 		}
 		return ""
-	case jsLineCommentEndedBySeparator(f.b.d):
-		return "js-line-comment-ls-ps"
 	case jsHTMLLikeCommentWithDelimiter(f.b.d):
 		return "js-html-like-comment"
 	case cssCommentHasQuote(src):
@@ -467,8 +465,6 @@ func classify(f failure) string {
 		return "js-template-literal"
 	case scriptHasRegexWithQuote(src):
 		return "js-regex-literal-quote"
-	case stringEndsWithEscapedBackslash(src):
-		return "string-escaped-backslash-desync"
 	case holeInJSBlockComment(src) && anyVal(f.usedVals(), func(v string) bool { return strings.Contains(v, "*/") }):
 		return "js-block-comment-breakout"
 	case adjacentHoles.MatchString(src) && formsLineSeparator(f.usedVals()):
@@ -530,39 +526,6 @@ func scriptTexts(d doc) []string {
 		body = body[:a] + "\x00" + body[a+b+2:]
 	}
 	return []string{body}
-}
-
-// a `//` comment (for the reference tokenizer) is ended by U+2028 / U+2029 and, before the next LF
-// or CR, a show or a quote character follows: the lexer ends line comments at LF and CR only
-// (finding js-line-comment-ls-ps)
-func jsLineCommentEndedBySeparator(d doc) bool {
-	for _, body := range scriptTexts(d) {
-		rest := body
-		for {
-			i := strings.Index(rest, "//")
-			if i < 0 {
-				break
-			}
-			// is this `//` a comment opener for the reference tokenizer?
-			pre := body[:len(body)-len(rest)+i]
-			ts := jsTokens(pre + "//x")
-			if len(ts) == 0 || ts[len(ts)-1].sig != "js:line-comment" || ts[len(ts)-1].val != "x" {
-				rest = rest[i+2:]
-				continue
-			}
-			line := rest[i+2:]
-			if k := strings.IndexAny(line, "\n\r"); k >= 0 {
-				line = line[:k]
-			}
-			for _, sep := range []string{"\u2028", "\u2029"} {
-				if k := strings.Index(line, sep); k >= 0 && strings.ContainsAny(line[k:], "\x00\"'`") {
-					return true
-				}
-			}
-			rest = rest[i+2:]
-		}
-	}
-	return false
 }
 
 // the reference tokenizer reads an HTML-like comment (`<!--`, or `-->` at the start of a line:
@@ -697,13 +660,6 @@ func scriptHasRegexWithQuote(src string) bool {
 	return false
 }
 
-// the template text (script, style or JSON script content, or a .js/.css/.json file) contains a
-// string literal that ends with an escaped backslash: `"…\\"` — the lexer reads `\"` as an
-// escaped quote
-func stringEndsWithEscapedBackslash(src string) bool {
-	return strings.Contains(src, `\\"`) || strings.Contains(src, `\\'`)
-}
-
 // a hole between `/*` and `*/` in JavaScript code (context JS: the value is written as a quoted
 // literal in which `*/` is not escaped)
 func holeInJSBlockComment(src string) bool {
@@ -796,17 +752,37 @@ func knownCases() []knownCase {
 		{id: "attr-js-css-not-contextual", d: func() doc { d := h(`<a onclick="go({{ s }})">`); d.risky = "attr-subcontext"; return d }(), val: "alert(1)"},
 	}
 	kc = append(kc,
-		knownCase{id: "string-escaped-backslash-desync", d: h(`<script>var p = "C:\\"; var x = {{ s }};</script>`), val: "alert(1)"},
 		knownCase{id: "js-string-split-line-separator", d: h(`<script>var b = "{{ s }}{{ s }}";</script>`), val: "\xa8\xe2\x80"},
 		knownCase{id: "css-comment-quote", d: h(`<style>/* it's */ a { color: {{ s }} }</style>`), val: "a b"},
 		knownCase{id: "script-end-tag-slash", d: h(`<script>var x = 1;</script/><a title="{{ s }}">`), val: `" onclick="alert(1)`},
 		knownCase{id: "js-block-comment-breakout", d: h(`<script>/* {{ s }} */</script>`), val: "*/alert(1)/*"})
 	kc = append(kc,
-		knownCase{id: "js-line-comment-ls-ps", d: h("<script>// a\u2028 var str = \"{{ s }}\";</script>"), val: "a a"},
 		knownCase{id: "js-html-like-comment", d: h("<script>x <!-- it's\n var name = {{ s }};</script>"), val: "alert(1)"})
 	r := h(`<p>{{ render "x.txt" }}</p>`)
 	r.extra["x.txt"] = "{{ s }}"
 	kc = append(kc, knownCase{id: "render-fastpath-format", d: r, val: "<b>"})
+	for i := range kc {
+		kc[i].human = fmt.Sprintf("%svalue (s, bs, …) = %q", kc[i].d.human(), kc[i].val)
+	}
+	return kc
+}
+
+// curedCases: the recorded minimal cases of findings that have been repaired in the library (second fix
+// series). They are replayed on every run like the open ones, but with no finding behind them: if one
+// fails again the check reports a VIOLATION.
+func curedCases() []knownCase {
+	h := func(src string) doc {
+		return doc{format: "html", src: src, parts: []string{src}, extra: map[string]string{}}
+	}
+	kc := []knownCase{
+		{id: "string-escaped-backslash-desync", d: h(`<script>var p = "C:\\"; var x = {{ s }};</script>`), val: "alert(1)"},
+		{id: "string-escaped-backslash-desync", d: h(`<style>a::before { content: "\\"; } b { color: {{ s }}; }</style>`), val: "red;} body{display:none"},
+		{id: "string-escaped-backslash-desync", d: h(`<script type="application/ld+json">{"p": "C:\\", "x": {{ s }}}</script>`), val: "alert(1)"},
+		{id: "js-line-comment-ls-ps", d: h("<script>// a\u2028 var str = \"{{ s }}\";</script>"), val: "a a"},
+		{id: "js-line-comment-ls-ps", d: h("<script>// a\u2029 var str = \"{{ s }}\";</script>"), val: "a a"},
+		{id: "typed-macro-context-after-raw", d: h(`{% macro M(v string) js %}{% raw %} {% end %}f({{ v }}, "x{{ v }}"){% end %}<script>var a = {{ M(s) }};</script>`), val: "alert(1)"},
+		{id: "typed-macro-context-after-raw", d: h(`{% macro M(v string) css %}{% raw %} {% end %}a{color:{{ v }}}{% end %}<style>{{ M(s) }}</style>`), val: "red;} body{display:none"},
+	}
 	for i := range kc {
 		kc[i].human = fmt.Sprintf("%svalue (s, bs, …) = %q", kc[i].d.human(), kc[i].val)
 	}
@@ -865,6 +841,21 @@ func run(c *hx.Ctx) error {
 		}
 		res.AddBreak(proto.Break{Kind: "property", Name: clause + " (recorded minimal case)", Case: "C06 known " + k.id,
 			Human: k.human + "\nbenign output: " + b.benign + "\noutput:        " + out + "\n" + detail, Impl: out, Model: b.benign, Finding: k.id})
+	}
+
+	// 1b. repaired findings: their minimal cases must not fail any more
+	for _, k := range curedCases() {
+		b, err := build(k.d)
+		if err != nil {
+			return fmt.Errorf("minimal case of the repaired finding %s does not build: %v", k.id, err)
+		}
+		clause, detail, out := b.check(same(k.val))
+		res.Count("cured:"+k.id+":"+k.d.src, true)
+		if clause != "" {
+			res.AddBreak(proto.Break{Kind: "property", Name: clause + " (minimal case of the repaired finding " + k.id + ")",
+				Case:  fmt.Sprintf("C06 doc %s %s values %s %s %s", k.d.format, proto.Hex([]byte(k.d.src)), proto.Hex([]byte(k.val)), proto.Hex([]byte(k.val)), proto.Hex([]byte(k.val))),
+				Human: k.human + "\nbenign output: " + b.benign + "\noutput:        " + out + "\n" + detail, Impl: out, Model: b.benign})
+		}
 	}
 
 	// 2. the two streams
